@@ -10,7 +10,7 @@ From UV.Base Require Import Order Cop Res.
 From UV.Gen Require Import Tables.
 From UV.Py Require Import PyStr.
 From UV.Vers Require Import Model.
-From UV.Schemes Require Import Common Generic LegacyOpenssl Gentoo GentooProofs Debian DebianProofs Semver SemverProofs Gem GemProofs Rpm RpmProofs Arch ArchProofs.
+From UV.Schemes Require Import Common Generic LegacyOpenssl Gentoo GentooProofs Debian DebianProofs Semver SemverProofs Gem GemProofs Rpm RpmProofs Arch ArchProofs Openssl.
 Import ListNotations.
 
 (* one of <, ==, > exactly; <= is < or ==; >= is > or ==; != is not ==  -- for any operators derived from one comparison *)
@@ -52,6 +52,10 @@ Proof. intros a b. rewrite rpm_ops_spec. split; [reflexivity|apply ops_of_agree]
 Theorem C02_alpm : forall a b, arch_ops a b = ops_of (arch_cmp a b) /\ ops_agree (arch_ops a b) = true.
 Proof. exact arch_ops_spec. Qed.
 
+Theorem C02_openssl : forall a b, ossl_ok a = true -> ossl_ok b = true ->
+  ossl_ops a b = ops_of (ossl_cmp a b) /\ ops_agree (ossl_ops a b) = true.
+Proof. intros a b Ha Hb. rewrite (ossl_ops_spec a b Ha Hb). split; [reflexivity|apply ops_of_agree]. Qed.
+
 Print Assumptions C02_operators_of_a_comparison_agree.
 Print Assumptions C02_single_comparator_constraints.
 Print Assumptions C02_generic.
@@ -62,3 +66,4 @@ Print Assumptions C02_semver_family.
 Print Assumptions C02_gem.
 Print Assumptions C02_rpm.
 Print Assumptions C02_alpm.
+Print Assumptions C02_openssl.
